@@ -194,13 +194,16 @@ def _collect(fi, inline_depth=60, keep=()):
             return terminates(last.body) and terminates(last.orelse)
         return False
 
-    def visit(stmts, ctx, loop_body=False, drop_tail_continue=False):
+    def visit(stmts, ctx, tail=False, drop_last_continue=False):
+        """tail: this statement list ends the iteration of the enclosing loop (the loop body itself, or a branch of an `if`
+        that is the last statement of such a list). A `continue` closing a tail list, or closing a branch of an `if` that
+        sits directly in a tail list (what follows that `if` is placed under the negated test below), skips nothing that
+        the contexts do not already say, and is not an effect."""
         ctx = list(ctx)
-        if (loop_body or drop_tail_continue) and stmts and isinstance(stmts[-1], ast.Continue):
-            # `continue` as the last statement of an iteration, or of a branch sitting directly in the loop body (what follows
-            # the branch is placed under the negated test below), skips nothing that the contexts do not already say
+        if (tail or drop_last_continue) and stmts and isinstance(stmts[-1], ast.Continue):
             stmts = stmts[:-1]
-        for s in stmts:
+        n_stmts = len(stmts)
+        for i_stmt, s in enumerate(stmts):
             if isinstance(s, ast.AnnAssign) and s.value is not None:
                 s2 = ast.Assign(targets=[s.target], value=s.value, lineno=s.lineno, col_offset=s.col_offset)
                 s2.end_lineno, s2.end_col_offset = getattr(s, 'end_lineno', s.lineno), getattr(s, 'end_col_offset', 0)
@@ -208,8 +211,9 @@ def _collect(fi, inline_depth=60, keep=()):
                 s = s2
             if isinstance(s, ast.If):
                 t_in = inl(s.test, s.test)
-                visit(s.body, ctx + [('if', t_in)], drop_tail_continue=loop_body)
-                visit(s.orelse, ctx + [('ifnot', t_in)], drop_tail_continue=loop_body)
+                branch_tail = tail and i_stmt == n_stmts - 1
+                visit(s.body, ctx + [('if', t_in)], tail=branch_tail, drop_last_continue=tail)
+                visit(s.orelse, ctx + [('ifnot', t_in)], tail=branch_tail, drop_last_continue=tail)
                 # `if c: return ...` followed by the rest  ==  `if c: return ... else: rest`
                 if terminates(s.body) and not terminates(s.orelse):
                     ctx = ctx + [('ifnot', t_in)]
@@ -217,10 +221,10 @@ def _collect(fi, inline_depth=60, keep=()):
                     ctx = ctx + [('if', t_in)]
             elif isinstance(s, ast.For):
                 c = ('for', copy_ast(s.target), inl(s.iter, s))
-                visit(s.body, ctx + [c], loop_body=True)
+                visit(s.body, ctx + [c], tail=True)
                 visit(s.orelse, ctx)
             elif isinstance(s, ast.While):
-                visit(s.body, ctx + [('while', inl(s.test, s.test))], loop_body=True)
+                visit(s.body, ctx + [('while', inl(s.test, s.test))], tail=True)
             elif isinstance(s, ast.Try):
                 visit(s.body, ctx + [('try', ast.Constant(value=None))])
                 for h in s.handlers:
@@ -845,11 +849,23 @@ def statement_list(fi):
     return out
 
 
-def statement_shape(fi):
+def statement_shape(fi, positional=False):
     """Hashes of the function's statements in order; nesting depth and bare 'else' markers are left out (an added guard
-    with an early exit re-nests, but does not edit, what follows)."""
+    with an early exit re-nests, but does not edit, what follows). positional=True names locals by order of first
+    appearance instead of by their spelling (invariant under renaming, but an added local renumbers the later ones)."""
     import hashlib
-    return [hashlib.sha1(repr(x[1:]).encode()).hexdigest()[:8] for x in statement_list(fi) if x[1] != 'else']
+    items = [x[1:] for x in statement_list(fi) if x[1] != 'else']
+    if positional:
+        order = {}
+
+        def rn(t):
+            if isinstance(t, tuple):
+                if len(t) == 2 and t[0] == 'name' and isinstance(t[1], str):
+                    return ('name', order.setdefault(t[1], len(order)))
+                return tuple(rn(x) for x in t)
+            return t
+        items = [rn(x) for x in items]
+    return [hashlib.sha1(repr(x).encode()).hexdigest()[:8] for x in items]
 
 
 _SHAPES = None
@@ -868,8 +884,19 @@ def statement_diff(fi, tmpl):
     """Size of the statement-level difference between a function and its reviewed shape (refs/shapes.json; the reference
     form when the function has none): (statements deleted + inserted + replaced, number of reviewed statements).
     Only a MEASURE of how much was rewritten, used to tell a local deviation from a restructuring."""
-    a = reviewed_shape(fi.qual) or statement_shape(tmpl)
-    return shape_diff(a, statement_shape(fi)), len(a)
+    return function_diff(fi, tmpl)
+
+
+def function_diff(fi, tmpl=None):
+    """(changed statements, reviewed statements): the smaller of the spelling-based and the renaming-invariant difference."""
+    ref = reviewed_shape(fi.qual)
+    if ref:
+        raw, pos = ref['raw'], ref['pos']
+    elif tmpl is not None:
+        raw, pos = statement_shape(tmpl), statement_shape(tmpl, positional=True)
+    else:
+        return None
+    return min(shape_diff(raw, statement_shape(fi)), shape_diff(pos, statement_shape(fi, positional=True))), len(raw)
 
 
 def shape_diff(a, b):
